@@ -217,20 +217,29 @@ namespace Pistache::Rest
                 collection      = &optional_;
                 break;
             case SegmentType::Splat:
-                return splat_->removeRoute(lower_path);
+                if (splat_ == nullptr)
+                    throw std::runtime_error("Requested does not exist.");
+                // only the splat child goes away when it became empty; whether this
+                // node is removable too is decided below, like for the other kinds
+                if (splat_->removeRoute(lower_path))
+                    splat_.reset();
+                break;
             }
 
-            try
+            if (collection != nullptr)
             {
-                const bool removable = collection->at(current_segment)->removeRoute(lower_path);
-                if (removable)
+                try
                 {
-                    collection->erase(current_segment);
+                    const bool removable = collection->at(current_segment)->removeRoute(lower_path);
+                    if (removable)
+                    {
+                        collection->erase(current_segment);
+                    }
                 }
-            }
-            catch (const std::out_of_range&)
-            {
-                throw std::runtime_error("Requested does not exist.");
+                catch (const std::out_of_range&)
+                {
+                    throw std::runtime_error("Requested does not exist.");
+                }
             }
         }
         else
